@@ -142,3 +142,49 @@ def replay_e1(ctx, path):
         return 0
     print("unknown replay engine %r" % rp.get("engine"))
     return 2
+
+
+def big_scenario(n_users=45, n_chans=35):
+    """reply chunking boundaries: 353 carries 20 names, 319 30 channels, 302/303 20 nicknames per line"""
+    acts = []
+    nicks = ["u%02d" % i for i in range(n_users)]
+    for i, n in enumerate(nicks):
+        acts.append(["connect", {"nick": n, "user": "usr%d" % (i % 7), "multi_prefix": i % 3 == 0}])
+    for i in range(n_users - 2):
+        acts.append(["act", i + 1, {"verb": "JOIN", "chans": ["#big"]}])
+    acts.append(["act", 1, {"verb": "MODE", "target": "#big", "modes": [["+ov", ["u05", "u07"]]]}])
+    acts.append(["act", 3, {"verb": "MODE", "target": "u02", "modes": [["+i", []]]}])
+    for viewer in (1, 2, n_users - 1, n_users):
+        acts.append(["act", viewer, {"verb": "NAMES", "chans": ["#big"]}])
+        acts.append(["act", viewer, {"verb": "WHO", "mask": "#big"}])
+        acts.append(["act", viewer, {"verb": "WHO", "mask": "u*"}])
+    acts.append(["act", 2, {"verb": "ISON", "nicks": nicks + ["nobody1", "nobody2"]}])
+    acts.append(["act", 2, {"verb": "USERHOST", "nicks": nicks[:41] + ["nobody"]}])
+    chans = ["#c%02d" % i for i in range(n_chans)]
+    for k in range(0, n_chans, 5):
+        acts.append(["act", n_users, {"verb": "JOIN", "chans": chans[k:k + 5]}])
+    acts.append(["act", 1, {"verb": "WHOIS", "masks": [nicks[-1]]}])
+    acts.append(["act", n_users, {"verb": "WHOIS", "masks": [nicks[-1], "u0*"]}])
+    acts.append(["act", 1, {"verb": "LIST", "chans": []}])
+    acts.append(["act", 1, {"verb": "NAMES", "chans": []}])
+    acts.append(["act", 5, {"verb": "PRIVMSG", "targets": ["#big", "@#big"], "text": "to all of you"}])
+    acts.append(["act", 1, {"verb": "KICK", "chan": "#big", "users": nicks[20:30], "comment": "ten at once"}])
+    acts.append(["act", 1, {"verb": "NAMES", "chans": ["#big"]}])
+    acts.append(["act", 1, {"verb": "LUSERS"}])
+    return {"engine": "e1", "variant": {"preconf": False}, "actions": acts}
+
+
+def run_big(ctx, res, props):
+    """run the chunk-boundary scenario; violations tagged with one of `props` are findings"""
+    binary, hooks = ctx.binary()
+    scen = big_scenario()
+    viol, note = run_scenario(binary, hooks, scen)
+    res.evaluations += len(scen["actions"])
+    res.distinct.add("big-scenario")
+    res.extra["big_scenario_steps"] = len(scen["actions"])
+    if note:
+        res.inconclusive += 1
+        res.inconclusive_notes.append("big scenario: " + note)
+    for v in viol:
+        if set(v["props"]) & set(props):
+            res.findings.append(Finding("big:" + v["signature"], v["detail"], {"engine": "e1-scenario", "scenario": scen}))
